@@ -2,7 +2,7 @@
 (coq/Generated/AffineClip.v):
 
   * `threshold(x, th)`: the returned expression, built only from the two
-    arguments, `np.maximum`, `np.minimum` and unary minus, as a function on Z
+    arguments, `np.maximum`, `np.minimum`, `np.clip` and unary minus, as a function on Z
     (`src_threshold`);
   * the module constant `MAX_DIST` (must be a literal with an integral value)
     as `src_max_dist : Z`;
@@ -44,6 +44,8 @@ def _expr(n, a0, a1):
         return "(Z.max %s %s)" % (_expr(n.args[0], a0, a1), _expr(n.args[1], a0, a1))
     if _np(n, "minimum", 2):
         return "(Z.min %s %s)" % (_expr(n.args[0], a0, a1), _expr(n.args[1], a0, a1))
+    if _np(n, "clip", 3):      # np.clip(a, lo, hi) = minimum(maximum(a, lo), hi)
+        return "(Z.min (Z.max %s %s) %s)" % tuple(_expr(x, a0, a1) for x in n.args)
     if isinstance(n, ast.UnaryOp) and isinstance(n.op, ast.USub):
         return "(Z.opp %s)" % _expr(n.operand, a0, a1)
     raise Unsupported("threshold expression: " + ast.dump(n))
